@@ -3,6 +3,7 @@
 -/
 import HierArc.Model.Gate
 import HierArc.Proofs.RealInst
+import HierArc.Proofs.LensKeys
 import Mathlib.Tactic.Linarith
 import Mathlib.Tactic.Ring
 import Mathlib.Tactic.FieldSimp
@@ -315,6 +316,51 @@ theorem guard_sound (om ok : ℝ) (lensZ : List ℝ) (zMax : ℝ) (hom : 0 ≤ o
 theorem endpoints_insufficient :
     0 < f 0.05 (-0.5) 1 ∧ 0 < f 0.05 (-0.5) (1 + 10) ∧ f 0.05 (-0.5) (1 + 5) < 0 ∧ 0 < 1 - (0.05 : ℝ) - (-0.5) := by
   simp only [f]; norm_num
+
+/-! ### D. the proviso: no range error when the box of the interpolated parameters lies inside the interpolation range -/
+
+/-- a value inside a box that lies inside the interpolation range is not outside the range -/
+theorem inside_box_inside_range {x lo hi rmin rmax : ℝ} (h1 : lo ≤ x) (h2 : x ≤ hi) (hmin : rmin ≤ lo)
+    (hmax : hi ≤ rmax) : Lens.outside x (some rmin) (some rmax) = false := by
+  simp only [Lens.outside, Bool.or_eq_false_iff, decide_eq_false_iff_not, not_lt]
+  exact ⟨le_trans hmin h1, le_trans h2 hmax⟩
+
+/-- … and no range at all (parameter not interpolated) is never left -/
+theorem no_range_never_outside (x : ℝ) : Lens.outside x none none = false := by simp [Lens.outside]
+
+/-- **does not raise "out of the interpolated range"**: for every lens configuration, hyper-parameter point, random
+    stream and recursion depth, a single evaluation raises a `ValueError` only if a population mean is outside its
+    interpolation range, the lens is assigned to a line-of-sight population of unknown kind, or a declared scaling
+    parameter is not realised by the configuration.  With the prior box of `gamma_in`, `log_m2l`, `a_ani`, `beta_inf`
+    inside the interpolation ranges (`inside_box_inside_range`) and a well-formed configuration, it never does —
+    whatever the draws: draws outside the range are re-drawn, not passed on. -/
+theorem no_range_error (mk : ℝ → ℝ → ℝ → ℝ) (cfg : Lens.LensCfg ℝ) (hy : Lens.Hyper ℝ) (ddt dd dLum : ℝ)
+    (beta : Option ℝ) (ext : Lens.Ext ℝ) (fuel : ℕ)
+    (hlens : ¬ Lens.LensMeanOutside cfg.dist hy.lens) (hani : ¬ Lens.AnisoMeanOutside cfg.aniso hy.kin)
+    (hlos : ¬ Lens.LosUnknown cfg.los hy.los) (hkin : ∀ p ∈ cfg.kinParams, p ∈ Lens.realisedKeys cfg hy)
+    (s : Lens.St ℝ) (e : String) (h : Lens.singlePre mk cfg hy ddt dd dLum beta ext fuel s = .error e) :
+    e ≠ "ValueError" := by
+  intro he
+  rcases Lens.singlePre_valueError cfg hy ddt dd dLum beta ext fuel mk s e h he with h' | h' | h' | ⟨p, hp, hn⟩
+  · exact hlens h'
+  · exact hani h'
+  · exact hlos h'
+  · exact hn (hkin p hp)
+
+/-- the converse for the configuration error: a scaling parameter that the configuration does not realise can never be
+    evaluated (the interface raises instead of interpolating with a default) -/
+theorem missing_scaling_parameter_raises (mk : ℝ → ℝ → ℝ → ℝ) (cfg : Lens.LensCfg ℝ) (hy : Lens.Hyper ℝ)
+    (ddt dd dLum : ℝ) (beta : Option ℝ) (ext : Lens.Ext ℝ) (fuel : ℕ) (p : String) (hp : p ∈ cfg.kinParams)
+    (hn : p ∉ Lens.realisedKeys cfg hy) (s : Lens.St ℝ) :
+    ∀ out s', Lens.singlePre mk cfg hy ddt dd dLum beta ext fuel s ≠ .ok (out, s') :=
+  Lens.singlePre_missing_raises cfg hy ddt dd dLum beta ext fuel mk ⟨p, hp, hn⟩ s
+
+/-- the realised parameters of a lens that interpolates over `a_ani` (OM, sampled) and `gamma_in` -/
+example : Lens.realisedKeys
+    { ltype := .IFUKinCov, dist := { prop := 0, propBeta := 0, gammaInSampling := true },
+      aniso := { sampling := true, model := "OM" }, los := {} } {} =
+    ["lambda_mst", "gamma_ppn", "gamma_in", "a_ani"] := by
+  simp [Lens.realisedKeys, Lens.lensKeys, Lens.anisoKeys]
 
 /-! ### non-vacuity -/
 example : guardOK (0.3 : ℝ) (-0.2) [1.5, 2.0] 2.3 = true := by
